@@ -22972,6 +22972,37 @@ pub mod verif_hooks {
 		};
 		cm.can_forward_htlc_should_intercept(&msg, prev_chan_public, &next_hop)
 	}
+	fn dummy_part(cltv_expiry: u32, value: u64, sender_intended_value: u64, timer_ticks: u8) -> MppPart {
+		MppPart {
+			prev_hop: HTLCPreviousHopData {
+				prev_outbound_scid_alias: 0,
+				user_channel_id: None,
+				amount_msat: None,
+				htlc_id: 0,
+				incoming_packet_shared_secret: [0; 32],
+				phantom_shared_secret: None,
+				trampoline_shared_secret: None,
+				blinded_failure: None,
+				channel_id: ChannelId([0; 32]),
+				outpoint: OutPoint { txid: bitcoin::Txid::all_zeros(), index: 0 },
+				counterparty_node_id: None,
+				cltv_expiry: None,
+			},
+			cltv_expiry,
+			value,
+			sender_intended_value,
+			timer_ticks,
+			total_value_received: None,
+		}
+	}
+	/// parts: (value, sender_intended_value, timer_ticks); returns (timed out, ticks afterwards)
+	pub fn check_mpp_timeout_probe(parts: &[(u64, u64, u8)], total_mpp_amount_msat: u64) -> (bool, Vec<u8>) {
+		let mut htlcs: Vec<MppPart> =
+			parts.iter().map(|(v, s, t)| dummy_part(500, *v, *s, *t)).collect();
+		let fields = RecipientOnionFields::spontaneous_empty(total_mpp_amount_msat);
+		let r = check_mpp_timeout(htlcs.iter_mut(), &fields);
+		(r, htlcs.iter().map(|h| h.timer_ticks).collect())
+	}
 	pub fn mpp_check_onchain_timeout(cltv_expiry: u32, height: u32) -> bool {
 		let part = MppPart {
 			prev_hop: HTLCPreviousHopData {
